@@ -59,6 +59,8 @@ class BuildIndex(Harness):
         for rs in recs:
             for crlf in (False, True):
                 out.append(dict(records=[list(r) for r in rs], crlf=crlf, chunk=None, desc=crlf))
+                if tier == "thorough" or len(rs) > 1 or rs[0] in ((1, 1), (4, 2), (5, 3)):     # the file ends with the last base
+                    out.append(dict(records=[list(r) for r in rs], crlf=crlf, chunk=None, desc=False, no_final_newline=True))
             if len(rs) > 1:
                 size = len(layout(dict(records=rs))[0])
                 first = len(layout(dict(records=rs[:1]))[0])
@@ -109,8 +111,15 @@ class BuildIndex(Harness):
         for k in ("length", "start", "lenc", "lenb"):
             if len(out[k]) != len(exp[k]):
                 return False
-            conj += [TI(a) == b for a, b in zip(out[k], exp[k])]
+            conj += [TI(a) == b for i, (a, b) in enumerate(zip(out[k], exp[k])) if not (k == "lenb" and i in self._free_lenb(skel))]
         return z_and(conj)
+
+    @staticmethod
+    def _free_lenb(skel):
+        """a one-line record that ends the file without a line break has no observable bytes-per-line (faidx tools differ; the value is
+        never used to address a base of a one-line record): it is left unconstrained"""
+        rlen, width = skel["records"][-1]
+        return {len(skel["records"]) - 1} if skel.get("no_final_newline") and rlen <= width else set()
 
     def oracle(self, skel, cx, cout):
         if isinstance(cout, Exc):
@@ -118,6 +127,9 @@ class BuildIndex(Harness):
                 return None
             return f"raised {cout}"
         exp = self._expected(skel)
+        for i in self._free_lenb(skel):
+            if isinstance(cout.get("lenb"), list) and len(cout["lenb"]) == len(exp["lenb"]):
+                exp["lenb"][i] = cout["lenb"][i]
         return None if cout == exp else f"create_index (records (len,width)={skel['records']}, crlf={skel['crlf']}, chunk={skel.get('chunk')}) = {cout}, expected {exp}"
 
 
@@ -129,7 +141,7 @@ class Fetch(Harness):
     stubs = ("indexed_fasta.open returns the in-memory FASTA (SymFile) for the data file; the faidx file is a real temporary file",)
     bounds = {"quick": "1-2 records, length 1-5, width 1-3, LF/CRLF; 1-2 intervals with every 0<=a<b<=length (symbolic), "
                        "plain-name path and StringEncoding fast path",
-              "thorough": "length up to 7, width up to 4, up to 3 records"}
+              "thorough": "length up to 7, width up to 4, up to 3 records; files with and without a final newline"}
 
     def skeletons(self, tier, seed):
         out = []
@@ -150,6 +162,8 @@ class Fetch(Harness):
                         if tier == "quick" and len(t) == 2 and rs[0][0] > 4:
                             continue
                         out.append(dict(records=[list(r) for r in rs], crlf=crlf, mode=mode, targets=t))
+                        if t[0] == len(rs) - 1 and (tier == "thorough" or not crlf):    # last record fetched from a file without a final newline
+                            out.append(dict(records=[list(r) for r in rs], crlf=crlf, mode=mode, targets=t, no_final_newline=True))
         return out
 
     def inputs(self, skel, V):
